@@ -504,3 +504,46 @@ pub enum LimitedDataReadError {
     LargeObject(String),
     Read(io::Error),
 }
+
+//------------ Verification hooks (C38) --------------------------------------
+//
+// Inherent function on the public `Config` so that it can be reached from
+// outside the crate although this module is private.
+
+#[cfg(routinator_verif)]
+impl Config {
+    /// Runs the real `LimitedDataRead` over `reader` with the given limit.
+    ///
+    /// With `read_all` the data is collected through
+    /// `LimitedDataRead::read_all` (as the snapshot and delta processors
+    /// do), otherwise through `io::Read::read_to_end` (as `load_ta` does).
+    /// Returns the outcome (0 = success, 1 = size limit exceeded, 2 = the
+    /// wrapped reader failed, 3 = I/O error without a stored error) and the
+    /// data collected (for `read_all`: only on success).
+    pub fn verif_limited_read<R: io::Read>(
+        reader: R, limit: Option<u64>, read_all: bool
+    ) -> (u8, Vec<u8>) {
+        let uri = "verif:object";
+        let mut reader = LimitedDataRead::new(reader, &uri, limit);
+        fn kind(err: Option<LimitedDataReadError>) -> u8 {
+            match err {
+                Some(LimitedDataReadError::LargeObject(_)) => 1,
+                Some(LimitedDataReadError::Read(_)) => 2,
+                None => 3,
+            }
+        }
+        if read_all {
+            match reader.read_all() {
+                Ok(data) => (0, data),
+                Err(err) => (kind(Some(err)), Vec::new()),
+            }
+        }
+        else {
+            let mut data = Vec::new();
+            match reader.read_to_end(&mut data) {
+                Ok(_) => (0, data),
+                Err(_) => (kind(reader.take_err()), data),
+            }
+        }
+    }
+}
